@@ -15,7 +15,7 @@ import copy
 import numpy as np
 
 from harness import tabutil as tu
-from harness.common import Driver, Result, err_class
+from harness.common import Driver, Result, err_class, impl_guard
 
 LEVEL = "proof"
 TRUSTED_BASE = [
@@ -453,6 +453,9 @@ def one_walk(ctx, res, drv, rng, n0, steps, nmax, malformed_rate=0.03, dense_max
     np.random.randint = scripted
     try:
         tab = tu.random_tableau(rng, n0)
+        # the start tableau is produced by the gate functions under test: it must be a valid tableau before anything is derived from it
+        if not check_state(res, tab, "the generator (hadamard / phase / cnot / cz from |0..0>)", {"generator": "tu.random_tableau", "n": n0}):
+            return
         lines = []
         checks = []
         for step in range(steps):
@@ -559,6 +562,10 @@ def exhaustive_two_qubit(ctx, res, drv):
     """every single op with every argument and forced outcome on all 11,520 two-qubit tableaux (destabilizer signs included)"""
     tabs = all_two_qubit_tableaux()
     res.extra["two_qubit_tableaux"] = len(tabs)
+    if len(tabs) != 11520:
+        # the enumeration runs the implementation's own gates: a changed gate would silently shrink (or blow up) the "exhaustive" space
+        res.exact_break("coverage collapsed: two-qubit tableaux", input={"n": 2}, impl=f"BFS over hadamard / phase / cnot reached {len(tabs)} tableaux",
+                        model="11,520 two-qubit Clifford tableaux (iphase = 0)")
     ops = []
     for g in GATES1:
         ops += [(g, 0), (g, 1)]
@@ -632,11 +639,15 @@ def run(ctx, budget=1.0):
         plan = [(rng.randrange(1, 6), 300, 6) for _ in range(200)] + \
                [(rng.randrange(6, 30), 300, 36) for _ in range(40)] + \
                [(100, 400, 104), (200, 250, 203)]
-    for n0, steps, nmax in plan:
-        one_walk(ctx, res, drv, rng, n0, steps, nmax)
+    # every walk runs under common.impl_guard: the start tableau (tu.random_tableau = the gate functions themselves), tab.copy() and the
+    # BFS of the exhaustive part call graphiq outside a `try`; an exception there is the API under test raising on a well-formed call
+    for k, (n0, steps, nmax) in enumerate(plan):
+        with impl_guard(res, "api:walk", promise=True, input={"walk": k, "n0": n0, "steps": steps}):
+            one_walk(ctx, res, drv, rng, n0, steps, nmax)
     if not ctx.quick:
-        exhaustive_two_qubit(ctx, res, drv)
-        res.notes.append("exhaustive: all 11,520 two-qubit tableaux x every single operation with every argument and forced outcome")
+        with impl_guard(res, "api:exhaustive-two-qubit", promise=True):
+            exhaustive_two_qubit(ctx, res, drv)
+            res.notes.append(f"exhaustive: all {res.extra.get('two_qubit_tableaux')} two-qubit tableaux reached x every single operation with every argument and forced outcome")
     res.extra["driver_lines"] = drv.n_lines
     drv.close()
     return res
